@@ -34,6 +34,12 @@ JRAddrAccess(e) ==
           /\ r.lookups[i].found = m.found
           /\ (m.found => r.lookups[i].val = EncString(m.val))
           /\ r.lookups[i].check = m.found, cls),
+     \* introducer helpers: ihN / iexpN / itagN for N in 0..2, any other number falls back to 0 (router_address/constants.go)
+     R("C17", "introducer_lookup_exact_key", built /\ "intro" \in DOMAIN r,
+       \A i \in 1..Len(r.intro) :
+          LET n == IF r.intro[i].num \in 0..2 THEN r.intro[i].num ELSE 0
+              V(prefix) == LET m == Lookup(pairs, prefix \o << 48 + n >>) IN IF m.found THEN EncString(m.val) ELSE << >> IN
+          /\ r.intro[i].ih = V(<< 105, 104 >>) /\ r.intro[i].iexp = V(<< 105, 101, 120, 112 >>) /\ r.intro[i].itag = V(<< 105, 116, 97, 103 >>), cls),
      R("C17", "static_key_iff_32_bytes", built, r.static_ok = (Lookup(pairs, KS).found /\ Len(Lookup(pairs, KS).val) = 32)
                                                /\ (r.static_ok => r.static = Lookup(pairs, KS).val), cls),
      R("C17", "iv_iff_16_bytes", built, r.iv_ok = (Lookup(pairs, KI).found /\ Len(Lookup(pairs, KI).val) = 16)
